@@ -5,7 +5,7 @@
    "}" in front of the stretch after it.  The Spec's reading of such a body: the text before the first print
    command, then per print command its tree (up to positions) and the text up to the next one; "text" is the
    concatenation of body_text of the stretches and the characters of the text tags in between. *)
-From Soy Require Import Model.Bytes Model.Ast Spec.Text Spec.TextBody Spec.TextMix Spec.ExprSyntax.
+From Soy Require Import Model.Bytes Model.Ast Spec.Text Spec.TextBody Spec.TextMix Spec.TextTemplate Spec.ExprSyntax.
 Open Scope N_scope.
 
 Inductive c15_tag : Type :=
@@ -60,4 +60,15 @@ Fixpoint c15_view0 (ns : list node) : c15_reading :=
       | NRawText _ x => (x ++ fst (c15_view0 r), snd (c15_view0 r))
       | _ => ([], (n, fst (c15_view0 r)) :: snd (c15_view0 r))
       end
+  end.
+
+(* ---- the same inside a template: {template .name} T0 tag1 T1 ... tagn Tn {/template} (Spec/TextTemplate.v) ----
+   every stretch, the first and the last included, stands between two tags *)
+Definition c15_tpl_file (name T0 : bstr) (r : list c15_tseg) : bstr := tpl_open_src name ++ c15_body_src T0 r ++ tpl_close_src.
+Definition c15_tpl_ok (pr : node -> option bstr) (T0 : bstr) (r : list c15_tseg) : Prop :=
+  mix_stretch_ok false false T0 /\ Forall (fun sg : c15_tseg => c15_tag_ok pr (fst sg) /\ mix_stretch_ok false false (snd sg)) r.
+Definition c15_tpl_out (T0 : bstr) (r : list c15_tseg) : option c15_reading :=
+  match body_text false T0, c15_rest_out r with
+  | Some t, Some o => Some (t ++ fst o, snd o)
+  | _, _ => None
   end.
